@@ -379,7 +379,7 @@ def lexer_inputs(seed, tier, files):
                 if tier != "quick":
                     for d in small:
                         ins.append(a + b + c + d); origin.append("exh4")
-    n = 1500 if tier == "quick" else 20000
+    n = 1000 if tier == "quick" else 20000
     pieces = [b"12", b"3.5", b"1e5", b"1e+", b"2E-3f", b"7.", b".5", b"0x1F", b"abc", b"_x1", b"_", b"main", b"println", b"Result",
               b'"s"', b'"a{x}b"', b'"{{x"', b'"\\"{x}"', b'"unterminated', b"'c'", b"'\\n'", b"'\\q'", b"'ab'", b"''", b"'",
               b"// c\n", b"// c", b"/* c */", b"/* u", b"/*/", b"*/", b"<<=", b">>=", b"...", b"..", b"->", b"=>", b"::", b"&&", b"||",
@@ -475,7 +475,11 @@ def gen_expr(rng, depth):
 
 
 def unmodelled_expr(toks):
-    """shapes ExprParse.v answers Err for because the construct is outside the model (method call, chained call)"""
+    """shapes ExprParse.v answers Err for because the construct is outside the model (method call, chained call,
+    array literal = a '[' in operand position)"""
+    for i, t in enumerate(toks):
+        if t == "[" and (i == 0 or not (toks[i - 1][0].isalnum() or toks[i - 1][0] == "_" or toks[i - 1] in (")", "]"))):
+            return True
     for i in range(len(toks) - 1):
         if toks[i] in (")", "]") and toks[i + 1] == "(":
             return True
@@ -594,7 +598,9 @@ def run(rep):
         d = open(f, "rb").read()
         if len(d) <= 16384:
             lins.append(d); lorig.append("repo-file")
+    t_lex = time.time()
     lres = lex_both(lins, leaf, names)
+    rep.coverage["lexer_wall_s"] = round(time.time() - t_lex, 1)
     lbad = [(x, o, m, i) for x, o, (m, i) in zip(lins, lorig, lres) if m != i]
     for o in lorig:
         hist["lexer:" + o] = hist.get("lexer:" + o, 0) + 1
@@ -633,9 +639,10 @@ def run(rep):
     evaluations += len(base)
     hist["repo-file"] = len(base)
     cpu0 = min(r["cpu"] for _, _, r in base) if base else 0.05
-    fit = [(r["cpu"] - cpu0) / len(d) for _, d, r in base if len(d) >= 2000]
-    c_fit = max(fit) if fit else 1e-5
-    c_fit = max(c_fit, 2e-6)
+    fit = sorted((r["cpu"] - cpu0) / len(d) for _, d, r in base if len(d) >= 2000)
+    # 90th percentile of (cpu - startup)/bytes over the unmodified files, clipped: robust against load spikes of single runs
+    c_fit = fit[(len(fit) * 9) // 10] if fit else 1e-5
+    c_fit = min(max(c_fit, 2e-6), 5e-5)
 
     def bound(n):
         return 3 * cpu0 + 0.5 + 8 * c_fit * n
@@ -650,7 +657,7 @@ def run(rep):
 
     # ---------------- (3) generated streams, all through one pool
     cases = []        # (stream, label, data, mode, args, big_stack)
-    n_mut = 2500 if quick else 40000
+    n_mut = 1500 if quick else 40000
     for k in range(n_mut):
         rng = rng_for(seed, "c10-mut", k)
         f, d = rng.choice(usable)
@@ -666,7 +673,7 @@ def run(rep):
             continue
         cases.append(("mutation", "%s:%s" % (os.path.relpath(f, common.REPO), "+".join(kinds)), m, "parse", [], False))
     # truncation at EVERY token boundary of a few files
-    n_trunc_files = 4 if quick else 60
+    n_trunc_files = 3 if quick else 60
     rngt = rng_for(seed, "c10-trunc")
     smallf = [(f, d) for f, d in usable if len(d) <= (1500 if quick else 4000)]
     for f, d in rngt.sample(smallf, min(n_trunc_files, len(smallf))):
@@ -683,7 +690,7 @@ def run(rep):
         for dpt in ([600, 2000] if quick else [500, 1000, 1500, 2000]):
             cases.append(("amplify-deep", "%s:%d" % (kind, dpt), amp(kind, dpt), "parse", [], True))
     # amplification of repository files: wrap one expression token of a file in parentheses / blocks
-    for k in range(60 if quick else 600):
+    for k in range(40 if quick else 600):
         rng = rng_for(seed, "c10-ampfile", k)
         f, d = rng.choice(usable)
         toks = tokenize(d)
@@ -695,7 +702,7 @@ def run(rep):
         toks[i] = b"(" * dpt + toks[i] + b")" * dpt
         cases.append(("amplify-file", "%s:%d" % (os.path.relpath(f, common.REPO), dpt), b"".join(toks), "parse", [], False))
     # raw bytes, ascii noise, token soup
-    for k in range(1500 if quick else 25000):
+    for k in range(800 if quick else 25000):
         kind, d = soup(rng_for(seed, "c10-soup", k))
         cases.append((kind, "", d, "parse", [], False))
     # corpus of minimised past failures
@@ -707,7 +714,7 @@ def run(rep):
 
     # directive-only files: model verdict
     pp_cases = []
-    for k in range(300 if quick else 5000):
+    for k in range(200 if quick else 5000):
         rng = rng_for(seed, "c10-pp", k)
         text, args = directive_file(rng)
         pp_cases.append((text, args))
@@ -715,7 +722,7 @@ def run(rep):
                                        for t, args in pp_cases])
     # println(<expr>); programs: model verdict
     ex_cases = []
-    for k in range(700 if quick else 12000):
+    for k in range(450 if quick else 12000):
         rng = rng_for(seed, "c10-expr", k)
         ex_cases.append(expr_case(rng))
     ex_model = model_lines("verdict", [t.encode().hex() for _, _, t in ex_cases])
@@ -726,7 +733,7 @@ def run(rep):
         import gen_core
         import langrun
         sx = []
-        for k in range(400 if quick else 6000):
+        for k in range(250 if quick else 6000):
             rng = rng_for(seed, "c10-core", k)
             g = gen_core.Gen(rng, gen_core.Opts(wide_lits=False))
             # avoid C10-shift-ub: shift operators are replaced (any count outside 0..63 / negative operand is UB in the evaluator)
